@@ -59,7 +59,8 @@ pub fn run(ctx: &RunCtx, caps: bool) -> Outcome {
     o.exhaustive = Some(format!("all valid trees with <= {} nodes over the core leaf/operator set x all texts over {{a,b,c,é,\\n,-}} of length <= 3 x all offsets", core_n));
     let uni_n = if quick { 3 } else { 4 };
     let upats = space(&gen::uni_cfg(), uni_n, false);
-    let utexts = gen::text_set(&gen::SIGMA5, 3, 0);
+    let mut utexts = gen::text_set(&gen::SIGMA5, 3, 0);
+    utexts.extend(gen::cr_texts());
     if !stage(ctx, &mut o, &p, &format!("unicode/line-anchor leaves N<={}", uni_n), &upats, &utexts) {
         return o;
     }
